@@ -45,7 +45,10 @@ def source_set(r, fmt):
         svgs = [svggen.svg_source(r, g, pal)[0] for g in range(r.randint(2, 5))]
     if fmt.startswith("untouched") or fmt in ("cbdt", "sbix"):
         svgs = [s.replace("currentColor", "#445566") for s in svgs]
-    seqs = svggen.sequences(r, len(svgs), long_names=False)
+    seqs = svggen.sequences(r, len(svgs), long_names=True)
+    if r.random() < 0.5 and seqs:
+        # one sequence long enough that its glyph name must be replaced by a digest
+        seqs[-1] = tuple(r.randint(0x1F300, 0x1FAFF) for _ in range(r.randint(12, 14)))
     out = []
     for i, (s, q) in enumerate(zip(svgs, seqs)):
         from vf.drive import inproc
@@ -86,7 +89,7 @@ def run_cli(case):
                 res["tags"].append("same-name-in-two-dirs")
         cli.write_sources(src_dir, srcs)
         names = sorted(s["name"] for s in srcs)
-        base_flags = ["--color_format", fmt, "--family", "Det Test", "--output_file", "Font.ttf"]
+        base_flags = ["--color_format", fmt, "--family", "Det Test", "--output_file", "Font.ttf"] + (["--keep_glyph_names"] if case["i"] % 3 == 0 else [])
         if fmt in ("cbdt", "sbix"):
             base_flags += ["--bitmap_resolution", "32"]
         variants = []
